@@ -9,7 +9,7 @@ from hypothesis import strategies as st
 
 from ..core import SubCheck, Violation, cut, require
 from ..rng_script import ScriptExhausted, scripted
-from ..strategies import bfloat, near, ulp_step, unit_closed
+from ..strategies import bfloat, block_edge_sizes, near, ulp_step, unit_closed
 
 PROPERTY_ID = "C12"
 LEVEL = "exploration"
@@ -141,6 +141,58 @@ def body_power(case):
     return labels
 
 
+def _large_cases(tier):
+    import os
+
+    seed = int(os.environ.get("VERIF_SEED", "1") or "1")
+    for i, n in enumerate(block_edge_sizes(tier)):
+        idx = [2.0, 0.5, 1.0, 3.3, 1.0 + 1e-9][(i + seed) % 5]
+        for p in [idx] if idx != 1.0 else [1.0, 2.4]:  # index 1 is a separate branch of the sampler: never the only one tried at a size
+            yield {"n": int(n), "seed": seed, "index": p, "bounds": [[6.0, 12.0], [7.5, 10.25]][(i // 5 + seed) % 2], "cut": int((seed * 7919 + n // 3) % n)}
+
+
+def body_large(case):
+    """One sampler call for a number of energies ON or just beyond a block length: every element has CDF residual
+    |F(x) - u| small (vectorised closed form), and the call equals the two-part evaluation bit for bit."""
+    n, p = case["n"], case["index"]
+    lo, hi = case["bounds"]
+    rng = np.random.default_rng(case["seed"] * 1000003 + n)  # enumeration parameters only; part of the deterministic case
+    u = rng.uniform(0.0, 1.0, n)
+    u[:: max(1, n // 40)] = 1.0
+    u[1 :: max(1, n // 40)] = 0.0
+    spec = _spectra({"id": "powerspectrum", "index": p, "lower_bound": lo, "upper_bound": hi})
+    ub = u.tobytes()
+    with scripted(u, raw=True) as s_:
+        with cut(f"Spectra(index={p!r})({n})"):
+            x, norm, wsum = spec(n)
+        used = s_.pos
+    x = np.asarray(x)
+    require(x.shape == (n,) and x.dtype == np.float64, f"{n} energies requested, {x.shape} {x.dtype} returned")
+    require(used == n, f"{used} uniform numbers consumed for {n} energies")
+    require(u.tobytes() == ub, "the sampler modified the generator's output array")
+    require(bool(np.all((x >= lo) & (x <= hi))), f"{int(np.sum(~((x >= lo) & (x <= hi))))} of {n} energies of one call lie outside [{lo}, {hi}]")
+    k_ = (1.0 - p) * math.log(10.0)
+    w = hi - lo
+    if k_ == 0.0:
+        F, slope = (x - lo) / w, np.full(n, 1.0 / w)
+    else:
+        den = math.expm1(k_ * w)
+        F, slope = np.expm1(k_ * (x - lo)) / den, np.abs(k_ * np.exp(k_ * (x - lo)) / den)
+    tol = 1e-9 + 2.0 * np.spacing(x) * slope
+    bad = np.where(~(np.abs(F - u) <= tol))[0]
+    require(bad.size == 0, f"F(x) != u for {bad.size} of {n} energies of one call (index {p!r}; first at position {int(bad[0]) if bad.size else -1}: u={u[bad[:1]].tolist()} -> x={x[bad[:1]].tolist()})")
+    require(abs(float(norm) * float(wsum) - 1.0) <= 4 * np.finfo(float).eps, "normalisation x weight sum != 1")
+    k = case["cut"]
+    if 0 < k < n:
+        parts = []
+        for a, b in ((0, k), (k, n)):
+            with scripted(u[a:b].copy(), raw=True):
+                with cut(f"Spectra({b - a})"):
+                    parts.append(np.asarray(_spectra({"id": "powerspectrum", "index": p, "lower_bound": lo, "upper_bound": hi})(b - a)[0]))
+        require(np.concatenate(parts).tobytes() == x.tobytes(), f"{n} energies in one call differ from [0:{k}] and [{k}:{n}] sampled separately with the same uniform numbers")
+    return {f"n={n}", "power_of_two" if n & (n - 1) == 0 else "with_tail", f"index={p}"}
+
+
 def body_mono(case):
     v, n = case["value"], case["n"]
     spec = _spectra({"id": "monospectrum", "log_nu_energy": v})
@@ -208,5 +260,14 @@ SUBCHECKS = [
         {"quick": 8, "thorough": 200},
         doc="results handed back to the caller are identical with and without plotting/storing options (shared with C11/options, restricted to this stage)",
         shrink=False,
+    ),
+    SubCheck(
+        "large_batch",
+        None,
+        body_large,
+        lambda labels: True,
+        {"quick": 1},
+        doc="power-law sampling of N energies with N on / just beyond block lengths (2^12..2^22 quick, ..2^24 and 10^7 thorough): every element's CDF residual, bounds, one uniform number per energy; whole == two parts",
+        exhaustive=_large_cases,
     ),
 ]
